@@ -80,7 +80,7 @@ def gen_desc(rng, lib=None, n_inst=None, seq=True):
             r = rng.random()
             if r < 0.2:
                 if not free_bus_bits:
-                    w = rng.randint(2, 4)
+                    w = rng.randint(1, 4)
                     rg = (w - 1, 0) if rng.random() < 0.5 else (0, w - 1)
                     nm = fresh('wb')
                     bits = [f'{nm}[{i}]' for i in _range(rg)]
@@ -174,10 +174,21 @@ def render_verilog(desc, rng, style=None):
     stm_decl, stm_other = [], []
     alias_cnt = [0]
 
+    single = {}          # the only bit of a width-one bus -> the bus name (a width-one vector may be referenced without a select)
+    for bus in list(desc['ports']) + list(desc['wire_buses']):
+        if bus.get('range') and len(bus['bits']) == 1:
+            single[bus['bits'][0]] = bus['name']
+
     def ident(n):
         # bus bit 'name[3]' of a declared bus stays as is; escaped scalar names get the backslash form
         if n in CONST:
+            if st.get('noise', True) and rng.random() < 0.4:
+                feats.add('const_other_spelling')
+                return rng.choice(["1'B{}", "1'h{}", "1'H{}", "1'd{}", "1'D{}"]).format(CONST[n])
             return n
+        if n in single and rng.random() < 0.5:
+            feats.add('width_one_bus_by_name')
+            return single[n]
         if n in esc:
             feats.add('escaped')
             # an escaped identifier ends at the next white space: blank, tab or line break (Verilog-2005 3.7.1)
@@ -271,7 +282,7 @@ def render_verilog(desc, rng, style=None):
                 continue
             if s in CONST:
                 feats.add('const_pin')
-                pins.append(f'.{p}({s})')
+                pins.append(f'.{p}({ident(s)})')
                 continue
             nm = s
             if s in bus_alias and rng.random() < 0.5:
@@ -302,6 +313,9 @@ def render_verilog(desc, rng, style=None):
                 val = int(''.join(str(CONST[s]) for s in srcs), 2)
                 base = rng.choice('bdh')
                 lit = {'b': f"{len(bits)}'b{val:0{len(bits)}b}", 'd': f"{len(bits)}'d{val}", 'h': f"{len(bits)}'h{val:x}"}[base]
+                if rng.random() < 0.4:
+                    lit = lit.upper()           # 4'HA, 3'B101, 8'D17: base letter and hex digits are case insensitive
+                    feats.add('sized_constant_upper_case')
                 stm_other.append(f'assign {p["name"]} = {lit};')
                 feats.add('sized_constant_' + base)
             else:
@@ -317,7 +331,7 @@ def render_verilog(desc, rng, style=None):
             for b, s in zip(bits, srcs):
                 if s == b:
                     continue      # an instance drives the port signal directly
-                stm_other.append(f'assign {b} = {ident(alias(s)) if s not in CONST else s};')
+                stm_other.append(f'assign {ident(b)} = {ident(alias(s)) if s not in CONST else ident(s)};')
                 if s in CONST:
                     feats.add('const_assign')
     body = stm_decl + stm_other
